@@ -295,8 +295,8 @@ func c10GenBudget(r *vRand) c10BudgetIn {
 		na = 0
 	}
 	for i := 0; i < na; i++ {
-		in.apps = append(in.apps, c10App{hasMetric: !r.Chance(1, 6), qos: r.Pick([]int64{c10QBE, c10QBE, c10QLS, c10QNone, c10QLSR}) == c10QBE,
-			base: r.Intn(3), used8: int64(r.Range(0, 16))}.fix(r))
+		in.apps = append(in.apps, c10App{hasMetric: !r.Chance(1, 6), qos: int(r.Pick([]int64{c10QBE, c10QBE, c10QLS, c10QNone, c10QLSR})),
+			base: r.Intn(3), used8: int64(r.Range(0, 16))})
 	}
 	switch r.Intn(4) {
 	case 0:
@@ -313,12 +313,6 @@ func c10GenBudget(r *vRand) c10BudgetIn {
 		in.node8 = s + int64(r.Range(0, 24))
 	}
 	return in
-}
-
-func (a c10App) fix(r *vRand) c10App {
-	// `qos` was generated as a bool through the struct literal trick above; redraw properly
-	a.qos = int(r.Pick([]int64{c10QBE, c10QBE, c10QLS, c10QNone, c10QLSR}))
-	return a
 }
 
 func c10Milli8(x int64) int64 { return x * 125 }
